@@ -282,6 +282,7 @@ Definition build_string (x : exts) : res sproto :=
            | Some (KeyFormat f) =>
                if N.eqb f 3 then ROk (Some KFId62)
                else if N.eqb f 2 then ROk (Some KFUuid)
+               else if N.eqb f 0 then ROk (Some KFInformal)   (* FORMAT_UNSPECIFIED: informal *)
                else RErr "unknown key format"
            end) (fun kf =>
     let entity :=
@@ -430,31 +431,29 @@ Definition build_enum_field (st : sset) (f : field) (x : exts) : outcome (sset *
   end.
 
 (* ---------------------------------------------------------------- checkFlattenCycle *)
-(* walk over the flattened object fields of linked objects; [seen] bounds the walk *)
-Fixpoint flatten_walk (fuel : nat) (st : sset) (rootk : ref) (seen : list ref) (todo : list ref) : bool :=
-  (* true: the root is reached again *)
+(* walk over the flattened object fields of linked objects; [seen] bounds the walk.
+   Some true: the root is reached again; None: out of fuel (excluded by ReflectProofs.flatten_cycle_fuel) *)
+Definition flat_targets (ps : list prop) : list ref :=
+  flat_map (fun p => match p_schema p with FObject r true _ _ => [r] | _ => [] end) ps.
+Definition entry_targets (e : entry) : list ref :=
+  match e with Linked (RObject _ _ _ _ ps) => flat_targets ps | _ => [] end.
+Fixpoint flatten_walk (fuel : nat) (st : sset) (rootk : ref) (seen : list ref) (todo : list ref) : option bool :=
   match fuel with
-  | O => false
+  | O => None
   | S f =>
       match todo with
-      | [] => false
+      | [] => Some false
       | k :: rest =>
-          if ref_eqb k rootk then true
+          if ref_eqb k rootk then Some true
           else if existsb (ref_eqb k) seen then flatten_walk f st rootk seen rest
           else
-            let next := match lookup st k with
-                        | Some (Linked (RObject _ _ _ _ ps)) =>
-                            flat_map (fun p => match p_schema p with FObject r true _ _ => [r] | _ => [] end) ps
-                        | _ => []
-                        end in
+            let next := match lookup st k with Some e => entry_targets e | None => [] end in
             flatten_walk f st rootk (k :: seen) (next ++ rest)
       end
   end.
-Definition flat_targets (ps : list prop) : list ref :=
-  flat_map (fun p => match p_schema p with FObject r true _ _ => [r] | _ => [] end) ps.
 Definition total_props (st : sset) : nat :=
   fold_right (fun e acc => match snd e with Linked r => length (root_props r) + acc | Placeholder => acc end)%nat O st.
-Definition flatten_cycle (st : sset) (rootk : ref) (ps : list prop) : bool :=
+Definition flatten_cycle (st : sset) (rootk : ref) (ps : list prop) : option bool :=
   flatten_walk (length ps + total_props st + length st + 1) st rootk [] (flat_targets ps).
 
 (* ---------------------------------------------------------------- findPSMOptions *)
@@ -640,10 +639,14 @@ Definition build_root (st : sset) (m : msgd) : outcome (sset * root) :=
   obind (message_properties st m) (fun '(st1, ps) =>
   if negb (props_valid ps) then Err "property has no JSON name"
   else if is_oneof_wrapper m then Ok (st1, ROneof (snd (msg_key m)) (m_descr m) ps)
-  else if flatten_cycle st1 (msg_key m) ps then Err "flattened fields lead back to the object"
-  else obind (lift (find_psm m)) (fun entity =>
-       let anym := match m_opt m with Some (MsgOpt _ (MTObject am)) => am | _ => [] end in
-       Ok (st1, RObject (snd (msg_key m)) (m_descr m) entity anym ps))).
+  else match flatten_cycle st1 (msg_key m) ps with
+       | None => OutOfFuel
+       | Some true => Err "flattened fields lead back to the object"
+       | Some false =>
+           obind (lift (find_psm m)) (fun entity =>
+           let anym := match m_opt m with Some (MsgOpt _ (MTObject am)) => am | _ => [] end in
+           Ok (st1, RObject (snd (msg_key m)) (m_descr m) entity anym ps))
+       end).
 End Step.
 
 (* the recursion through message references, on fuel *)
